@@ -17,6 +17,14 @@ class ToolError(Exception):
 _built = None
 
 
+HOOKS = "full"      # full | nostate | off  (set by build())
+
+
+def hooks_level():
+    build()
+    return HOOKS
+
+
 def build():
     """Build extension + replay crate from the repo's current working tree. Returns (pkg, rsbin)."""
     global _built
@@ -28,11 +36,16 @@ def build():
         sys.stderr.write(p.stdout + p.stderr)
         raise ToolError("build failed")
     pkg = rsbin = None
+    global HOOKS
     for line in p.stdout.splitlines():
         if line.startswith("PKG="):
             pkg = line[4:].strip()
         if line.startswith("RSBIN="):
             rsbin = line[6:].strip()
+        if line.startswith("HOOKS="):
+            HOOKS = line[6:].strip()
+    if HOOKS != "full":
+        sys.stderr.write("NOTE: verification hooks level '%s' for this tree (see bin/build)\n" % HOOKS)
     if not pkg or not rsbin:
         raise ToolError("build produced no paths")
     if pkg not in sys.path:
